@@ -283,10 +283,12 @@ pub fn build_history(intents: &[Intent], p: &GenParams, head: &Intent) -> Built 
                 let comm = if p.tame_numbers { pick(it.comm, &["", "0", "1", "9.99"]) } else { pick(it.comm, &["", "0", "0.00", "1", "9.99", "4.95", "0.0000000001", "12.3456789"]) };
                 r.comm = comm.to_string();
                 if p.foreign && !comm.is_empty() {
-                    match wpick(it.ccur, &[(7u32, 0u8), (1, 1), (1, 2), (1, 3)]) {
+                    match wpick(it.ccur, &[(7u32, 0u8), (1, 1), (1, 2), (1, 3), (if p.usd_norate { 2 } else { 0 }, 4)]) {
                         1 => { r.ccur = "CAD".into(); }
                         2 => { r.ccur = "USD".into(); r.crate_ = pick(it.ccur.wrapping_mul(5), &rate_tab).to_string(); tags.push("comm-other-currency".into()); }
                         3 => { r.ccur = "EUR".into(); r.crate_ = pick(it.ccur.wrapping_mul(11), &rate_tab).to_string(); tags.push("comm-other-currency".into()); }
+                        // a USD commission whose rate the tool looks up itself, whatever the amount's own currency and rate are
+                        4 => { r.ccur = "USD".into(); tags.push("comm-usd-day-rate".into()); }
                         _ => {}
                     }
                 }
